@@ -312,6 +312,46 @@ pub fn run(p: &[String]) -> Vec<String> {
                 None => vec![hex("<dropped>")],
             }
         }
+        // ---- C03
+        "shared_formula" => {
+            // formula anchor child : a real package whose sheet part carries a shared formula block, loaded by the real reader
+            use std::io::{Read, Write};
+            let (formula, anchor, child) = (unhex(&p[1]), unhex(&p[2]), unhex(&p[3]));
+            let book = umya_spreadsheet::new_file();
+            let mut buf: Vec<u8> = Vec::new();
+            umya_spreadsheet::writer::xlsx::write_writer(&book, &mut buf).unwrap();
+            let mut zin = zip::ZipArchive::new(std::io::Cursor::new(buf)).unwrap();
+            let mut out = zip::ZipWriter::new(std::io::Cursor::new(Vec::new()));
+            let esc = formula.replace('&', "&amp;").replace('<', "&lt;").replace('>', "&gt;");
+            let rownum = |s: &str| s.trim_start_matches(|c: char| c.is_ascii_alphabetic()).to_string();
+            let cells = if anchor == child {
+                format!("<row r=\"{}\"><c r=\"{}\"><f t=\"shared\" ref=\"{}\" si=\"0\">{}</f></c></row>", rownum(&anchor), anchor, anchor, esc)
+            } else if rownum(&anchor) == rownum(&child) {
+                format!("<row r=\"{}\"><c r=\"{}\"><f t=\"shared\" ref=\"{}:{}\" si=\"0\">{}</f></c><c r=\"{}\"><f t=\"shared\" si=\"0\"/></c></row>", rownum(&anchor), anchor, anchor, child, esc, child)
+            } else {
+                format!("<row r=\"{}\"><c r=\"{}\"><f t=\"shared\" ref=\"{}:{}\" si=\"0\">{}</f></c></row><row r=\"{}\"><c r=\"{}\"><f t=\"shared\" si=\"0\"/></c></row>", rownum(&anchor), anchor, anchor, child, esc, rownum(&child), child)
+            };
+            for i in 0..zin.len() {
+                let mut f = zin.by_index(i).unwrap();
+                let name = f.name().to_string();
+                let mut data = Vec::new();
+                f.read_to_end(&mut data).unwrap();
+                if name == "xl/worksheets/sheet1.xml" {
+                    let xml = String::from_utf8(data).unwrap();
+                    let xml = if xml.contains("<sheetData/>") { xml.replace("<sheetData/>", &format!("<sheetData>{}</sheetData>", cells)) } else {
+                        let a = xml.find("<sheetData>").unwrap(); let b2 = xml.find("</sheetData>").unwrap();
+                        format!("{}<sheetData>{}{}", &xml[..a], cells, &xml[b2..])
+                    };
+                    data = xml.into_bytes();
+                }
+                out.start_file(name, zip::write::SimpleFileOptions::default()).unwrap();
+                out.write_all(&data).unwrap();
+            }
+            let bytes = out.finish().unwrap().into_inner();
+            let back = umya_spreadsheet::reader::xlsx::read_reader(std::io::Cursor::new(bytes), true).unwrap();
+            let ws = back.get_sheet_by_name("Sheet1").unwrap();
+            vec![hex(ws.get_cell(child.as_str()).map(|c| c.get_formula()).unwrap_or("<no cell>"))]
+        }
         // ---- C05
         "font_roundtrip" => {
             // name size bold name size bold : two cells with these fonts, saved and reloaded
